@@ -263,4 +263,143 @@ theorem writeData_spec {p : Pool} (hI : Inv p) {o a : Nat} {us : List Nat} {b : 
   simp only [writeData, bind_apply, getObj_some ho, hr, ↓reduceIte]
   exact ⟨p', h1, h2, h3⟩
 
+/-! ### outcomes -/
+
+/-- the two possible outcomes of an operation started in a state satisfying the invariant: it completes,
+    or — only when the fault schedule makes its allocation fail — `bad_alloc` propagates.  Either way the
+    successor satisfies `Succ` for the operand set `T`; never a `fault`. -/
+def Outcome (r : Res Unit) (p : Pool) (T : Nat → Prop) (okPost throwPost : Pool → Prop) : Prop :=
+  (∃ p', r = .ok () p' ∧ Succ p p' T ∧ okPost p') ∨
+  (∃ p', r = .throw .badAlloc p' ∧ p.failAt = some (p.allocs + 1) ∧ Succ p p' T ∧ throwPost p')
+
+theorem Outcome.of_ok {r : Res Unit} {p : Pool} {T : Nat → Prop} {okPost throwPost : Pool → Prop}
+    (h : ∃ p', r = .ok () p' ∧ Succ p p' T ∧ okPost p') : Outcome r p T okPost throwPost := Or.inl h
+
+/-! ### copy assignment (two phases: release, then copy) -/
+
+/-- first phase of copy assignment: a long target releases its block and becomes the empty in-object buffer -/
+def assignCopyReset (o : Nat) : M Unit := do
+  let p ← getP
+  let b ← getObj o
+  if b.isReffed p.L then
+    deleteBlock b.chars
+    setObj o { chars := .loc o, size := 0, data := overwrite b.data 0 [0] }
+
+/-- second phase of copy assignment -/
+def assignCopyTail (L o src : Nat) : M Unit := do
+  let c ← getObj src
+  if c.isReffed L then
+    let chars ← newBlock (c.size + 1)
+    let us ← readUnits c.chars c.size
+    writeUnits chars 0 us
+    writeUnits chars c.size [0]
+    let b ← getObj o
+    setObj o { b with chars := chars, size := c.size }
+  else
+    setObj o { chars := .loc o, size := c.size, data := c.data }
+
+theorem assignCopy_phases (o src : Nat) (p : Pool) (h : o ≠ src) :
+    assignCopy o src p = (assignCopyReset o >>= fun _ => assignCopyTail p.L o src) p := by
+  simp only [assignCopy, h, assignCopyReset, assignCopyTail, ↓reduceIte, bind_apply, getP_apply]
+  cases getObj o p with
+  | ok b p1 =>
+    by_cases hr : b.isReffed p.L = true
+    · simp only [hr, ↓reduceIte, bind_apply]
+      cases deleteBlock b.chars p1 <;> rfl
+    · simp only [hr, Bool.false_eq_true, ↓reduceIte, bind_apply, pure_apply]
+  | _ => rfl
+
+theorem assignCopy_self (o : Nat) (p : Pool) : assignCopy o o p = .ok () p := by
+  simp [assignCopy]
+
+theorem assignCopyReset_spec {p : Pool} (hI : Inv p) {o : Nat} {b : Buf} (ho : p.objs o = some b) :
+    ∃ p₁, assignCopyReset o p = .ok () p₁ ∧ Succ p p₁ (· = o) ∧ p₁.allocs = p.allocs ∧ NotOwning p₁ o ∧
+      (∃ b₁, p₁.objs o = some b₁) ∧ (view p₁ o = view p o ∨ view p₁ o = some (0, [])) := by
+  by_cases hs : b.size < p.L
+  · have hn : ¬ p.L ≤ b.size := by omega
+    simp only [assignCopyReset, bind_apply, getP_apply, getObj_some ho, Buf.isReffed, ge_iff_le, decide_eq_true_eq, hn, ↓reduceIte,
+      pure_apply]
+    exact ⟨p, rfl, hI.succ_refl _, rfl, notOwning_of_short ho hs, ⟨b, ho⟩, Or.inl rfl⟩
+  · have hl : p.L ≤ b.size := by omega
+    obtain ⟨k, blk, hc, hblk, _, _, hown⟩ := hI.owner_block ho hl
+    simp only [assignCopyReset, bind_apply, getP_apply, getObj_some ho, Buf.isReffed, ge_iff_le, decide_eq_true_eq, hl, ↓reduceIte, hc,
+      deleteBlock_some hblk, setObj_eq]
+    refine ⟨_, rfl, ?_⟩
+    have hb := shortOk_reset (o := o) hI.Lpos (hI.obj o b ho).len
+    have := hI.set_short (o := o) (n := 0) (vs := [])
+      (p' := { p with heap := upd p.heap k none, objs := upd p.objs o (some { chars := .loc o, size := 0, data := overwrite b.data 0 [0] }) })
+      rfl (upd_same _ _ _) (fun x hx => upd_other _ _ hx) (rel_of_owns hown) (heap_of_owns hown) rfl rfl hb rfl rfl
+    refine ⟨this.1, rfl, ?_, ⟨_, upd_same _ _ _⟩, Or.inr this.2⟩
+    intro b' hb'
+    simp only [upd_same] at hb'
+    cases hb'; exact hI.Lpos
+
+theorem assignCopyTail_short {p : Pool} (hI : Inv p) {o src : Nat} {c : Buf} (hno : NotOwning p o) (hsrc : p.objs src = some c)
+    (hs : c.size < p.L) :
+    ∃ p', assignCopyTail p.L o src p = .ok () p' ∧ Succ p p' (· = o) ∧ view p' o = view p src := by
+  have hn : ¬ p.L ≤ c.size := by omega
+  simp only [assignCopyTail, bind_apply, getObj_some hsrc, Buf.isReffed, ge_iff_le, decide_eq_true_eq, hn, ↓reduceIte, setObj_eq]
+  refine ⟨_, rfl, ?_⟩
+  rw [view_short hsrc (hI.short_chars hsrc hs).1]
+  exact hI.set_short (by rfl) (by exact upd_same _ _ _) (fun x hx => by exact upd_other _ _ hx)
+    (rel_of_notOwning hno _) (fun _ _ => by rfl) (by rfl) (by rfl) (hI.shortOk_of_short hsrc hs) (by rfl) (by rfl)
+
+theorem assignCopyTail_long_ok {p : Pool} (hI : Inv p) {o src : Nat} {b c : Buf} (ho : p.objs o = some b) (hno : NotOwning p o)
+    (hsrc : p.objs src = some c) (hl : p.L ≤ c.size) (hf : p.failAt ≠ some (p.allocs + 1)) :
+    ∃ p', assignCopyTail p.L o src p = .ok () p' ∧ Succ p p' (· = o) ∧ view p' o = view p src := by
+  obtain ⟨k, blk, hc, hblk, hlen, hterm, _⟩ := hI.owner_block hsrc hl
+  have hk : k ≠ p.next := by have := hI.bound k blk hblk; omega
+  have hlt : (List.take c.size blk).length = c.size := by rw [List.length_take]; omega
+  have hl1 : (overwrite (List.replicate (c.size + 1) 205) 0 (List.take c.size blk)).length = c.size + 1 := by
+    rw [length_overwrite (by simp; omega)]; simp
+  simp only [assignCopyTail, bind_apply, getObj_some hsrc, Buf.isReffed, ge_iff_le, decide_eq_true_eq, hl, ↓reduceIte,
+    newBlock_ok _ hf, hc]
+  rw [readUnits_heap (blk := blk) (by simp only []; rw [upd_other _ _ hk]; exact hblk) (by omega)]
+  simp only []
+  rw [writeUnits_heap (upd_same _ _ _) (by simp; omega)]
+  simp only []
+  rw [writeUnits_heap (upd_same _ _ _) (by rw [hl1]; simp)]
+  simp only [getObj, ho, setObj_eq]
+  refine ⟨_, rfl, ?_⟩
+  rw [view_long hsrc hc hblk]
+  exact hI.fresh (o := o) (n := c.size) (b' := { chars := .heap p.next, size := c.size, data := b.data })
+    (by rfl) (by exact upd_same _ _ _) (fun x hx => by exact upd_other _ _ hx)
+    (by exact upd_same _ _ _) (fun k hk => by simp [upd_other _ _ hk]) (by rfl)
+    hno (by rfl) (by rfl) hl (hI.obj o b ho).len (by rw [length_overwrite (by simp; omega)]; exact hl1)
+    (getElem?_overwrite_term (by omega)) (by rfl)
+    (by rw [take_overwrite_term (by omega)]
+        have := take_overwrite_zero (blk := List.replicate (c.size + 1) 205) (us := List.take c.size blk)
+        rw [hlt] at this; exact this)
+
+theorem assignCopyTail_long_throw {p : Pool} (hI : Inv p) {o src : Nat} {c : Buf} (hsrc : p.objs src = some c)
+    (hl : p.L ≤ c.size) (hf : p.failAt = some (p.allocs + 1)) (T : Nat → Prop) :
+    ∃ p', assignCopyTail p.L o src p = .throw .badAlloc p' ∧ Succ p p' T ∧ ∀ x, view p' x = view p x := by
+  simp only [assignCopyTail, bind_apply, getObj_some hsrc, Buf.isReffed, ge_iff_le, decide_eq_true_eq, hl, ↓reduceIte,
+    newBlock_throw _ hf]
+  exact ⟨_, rfl, hI.succ_allocs T, (hI.same (by rfl) (fun _ => by rfl) (fun _ => by rfl) (by rfl) (by rfl)).2⟩
+
+theorem assignCopy_spec {p : Pool} (hI : Inv p) {o src : Nat} {b c : Buf} (ho : p.objs o = some b) (hsrc : p.objs src = some c) :
+    Outcome (assignCopy o src p) p (· = o) (fun p' => view p' o = view p src)
+      (fun p' => view p' o = view p o ∨ view p' o = some (0, [])) := by
+  by_cases hne : o = src
+  · subst hne
+    rw [assignCopy_self]
+    exact Or.inl ⟨p, rfl, hI.succ_refl _, rfl⟩
+  · rw [assignCopy_phases o src p hne]
+    obtain ⟨p₁, hr, hS, ha, hno, ⟨b₁, hb₁⟩, hv⟩ := assignCopyReset_spec hI ho
+    simp only [bind_apply, hr]
+    have hsrc₁ : p₁.objs src = some c := by rw [hS.objs src (Ne.symm hne)]; exact hsrc
+    have hvs : view p₁ src = view p src := hS.view src (Ne.symm hne)
+    rw [← hS.L]
+    by_cases hs : c.size < p₁.L
+    · obtain ⟨p', h1, h2, h3⟩ := assignCopyTail_short hS.inv hno hsrc₁ hs
+      exact Or.inl ⟨p', h1, hS.trans h2, h3.trans hvs⟩
+    · by_cases hf : p₁.failAt = some (p₁.allocs + 1)
+      · obtain ⟨p', h1, h2, h3⟩ := assignCopyTail_long_throw hS.inv (o := o) hsrc₁ (by omega) hf (· = o)
+        refine Or.inr ⟨p', h1, by rw [← hS.failAt, ← ha]; exact hf, hS.trans h2, ?_⟩
+        show view p' o = view p o ∨ view p' o = some (0, [])
+        rw [h3 o]; exact hv
+      · obtain ⟨p', h1, h2, h3⟩ := assignCopyTail_long_ok hS.inv hb₁ hno hsrc₁ (by omega) hf
+        exact Or.inl ⟨p', h1, hS.trans h2, h3.trans hvs⟩
+
 end StVerif.Pool
